@@ -408,7 +408,11 @@ func workC06Sched(w *run.W) {
 		w.Count("sched_points", int64(len(base.points)))
 		execs := 1
 		capped := false
+		unstable := false
 		judge := func(x c06SchedExec, prefix []int) bool {
+			if unstable {
+				return false
+			}
 			detail := map[string]any{"project": pr.name, "choices": prefix}
 			if x.limit {
 				w.Count("sched_select_limit", 1)
@@ -419,9 +423,14 @@ func workC06Sched(w *run.W) {
 				return false
 			}
 			if x.obs != base.obs {
+				// is the schedule the cause? replay this schedule and the canonical one: when either does not repeat itself,
+				// something this variant does not control decides (the iteration order of a map — the map-order DFS of this
+				// check owns that), and the project is not judged here
 				y := c06SchedRun(pr.build, prefix)
-				if y.obs != x.obs {
-					w.Violation("C06", "machinery:sched-replay-not-reproducible", "project "+pr.name+": a diverging schedule did not reproduce", detail)
+				z := c06SchedRun(pr.build, nil)
+				if y.obs != x.obs || z.obs != base.obs {
+					w.Count("sched_projects_with_uncontrolled_nondeterminism(map order)", 1)
+					unstable = true
 					return false
 				}
 				w.Violation("C06", "internal-schedule:"+obsClass(x.obs)+"-vs-"+obsClass(base.obs), fmt.Sprintf("project %s: the result depends on the schedule of the goroutines the library starts (choices %v)\n canonical: %s\n this one:  %s", pr.name, prefix, firstDiff(base.obs, x.obs), firstDiff(x.obs, base.obs)), detail)
@@ -443,6 +452,9 @@ func workC06Sched(w *run.W) {
 					continue
 				}
 				for alt := 1; alt < x.points[i].Arity; alt++ {
+					if unstable {
+						return
+					}
 					if maxExec > 0 && execs >= maxExec {
 						capped = true
 						return
